@@ -178,7 +178,7 @@ Definition map_step (n : nat) (acc : list (str * value)) (ks : str * value) : li
   match vlookup k acc with
   | Some d => match d, s with
               | VStruct _, VStruct _ | VPtr _, VPtr _ | VMap _, VMap _ => assoc_set k (merge n d s) acc
-              | _, _ => if is_empty_value s then acc else assoc_set k s acc
+              | _, _ => assoc_set k s acc
               end
   | None => assoc_set k s acc
   end.
@@ -187,11 +187,7 @@ Lemma merge_map n md ms : merge (S n) (VMap md) (VMap ms) = VMap (fold_left (map
 Proof. cbn [merge]. f_equal. Qed.
 
 Lemma map_step_plain n acc k s :
-  plain s = true ->
-  map_step n acc (k, s) = match vlookup k acc with
-                          | Some d => if is_empty_value s then acc else assoc_set k s acc
-                          | None => assoc_set k s acc
-                          end.
+  plain s = true -> map_step n acc (k, s) = assoc_set k s acc.
 Proof.
   intros P. unfold map_step. destruct (vlookup k acc) as [d|]; [|reflexivity].
   destruct s; try discriminate P; destruct d; reflexivity.
@@ -207,7 +203,7 @@ Lemma merge_map_lookup n : forall ms md k,
   vlookup k (fold_left (map_step n) ms md) =
   match vlookup k ms with
   | None => vlookup k md
-  | Some s => match vlookup k md with Some d => Some (replaced d s) | None => Some s end
+  | Some s => Some s
   end.
 Proof.
   induction ms as [|[k0 s0] ms IH]; intros md k ND PL; [reflexivity|].
@@ -222,10 +218,6 @@ Proof.
       destruct (seqb k1 k) eqn:E1.
       - exfalso. apply Hnotin. apply seqb_eq in E1. subst k1. left. reflexivity.
       - apply IHm. intros Hin. apply Hnotin. right. exact Hin. }
-    unfold replaced. destruct (vlookup k md) as [d|] eqn:Ed.
-    + destruct (is_empty_value s0); [exact Ed|apply vlookup_assoc_set_same].
-    + apply vlookup_assoc_set_same.
-  - assert (Hother : forall v, vlookup k (assoc_set k0 v md) = vlookup k md)
-      by (intros v; apply vlookup_assoc_set_other; exact E).
-    destruct (vlookup k0 md) as [d0|]; [destruct (is_empty_value s0)|]; rewrite ?Hother; reflexivity.
+    apply vlookup_assoc_set_same.
+  - destruct (vlookup k ms); [reflexivity|]. apply vlookup_assoc_set_other. exact E.
 Qed.
